@@ -203,7 +203,7 @@ def check(run):
     resolve.check_cone(run, repo, entries, 'polynomial algebra')
     run.floor('R14', 15)
     run.floor('R6', 40)
-    run.floor('R12.qutip', 40)
+    run.floor('R12.qutip', 38)
     run.floor('R12.rmul', 16)
     run.floor('R12.wire', 30)
     run.floor('R13.add', 8)
